@@ -274,11 +274,17 @@ def _profiles(IM, origin, rmax, order, odd, weights, verbose):
     if verbose:
         print('Extracting radial profiles...')
     prm = [IM.shape, origin, rmax, order, odd]
-    if _prm != prm or _weights is not weights:
+    if weights is None:
+        same_weights = _weights is None
+    else:
+        same_weights = _weights is not None and \
+                       np.array_equal(_weights, weights)
+    if _prm != prm or not same_weights:
         _prm = prm
-        _weights = weights
+        # (own copy, to notice later changes in the caller's array)
+        _weights = None if weights is None else np.array(weights)
         _dst = Distributions(origin=origin, rmax=rmax, order=order, odd=odd,
-                             weights=weights, use_sin=False, method='linear')
+                             weights=_weights, use_sin=False, method='linear')
         if verbose:
             print('(new Distributions object created)')
         # reset image basis
